@@ -119,6 +119,7 @@ func (w *World) pairHelperOf(fn *ssa.Function) *pairHelper {
 				return
 			}
 			nEvaluator = 0
+			inPlaceCtx := map[*ssa.Alloc]bool{}
 			for i := 0; i < 2; i++ {
 				// the operand may be evaluated by a one-operand independent evaluator of the package
 				// (copy the context, evaluate the designated child, hand back the copy's result)
@@ -148,6 +149,49 @@ func (w *World) pairHelperOf(fn *ssa.Function) *pairHelper {
 						}
 					}
 				}
+				// ... or by a helper that evaluates the designated child in the context it is handed and returns that
+				// context's result: the operands are independent iff each call is given its own copy
+				if ex, isEx := ret.Results[i].(*ssa.Extract); isEx && ex.Index == 0 {
+					if c, isCall := ex.Tuple.(*ssa.Call); isCall {
+						if e := staticCallee(c); e != nil && fnPkgKey(e) == "exec" {
+							if idx, okE := theWorld.inPlaceEvaluator(e, r); okE && idx < len(c.Call.Args) {
+								k := int64(-1)
+								if ld, ok := c.Call.Args[idx].(*ssa.UnOp); ok && ld.Op == token.MUL {
+									if ia, ok := ld.X.(*ssa.IndexAddr); ok && isBSRPtrSlice(ia.X.Type()) {
+										if kk, ok := constInt(ia.Index); ok {
+											k = kk
+										}
+									}
+								}
+								al, isAl := c.Call.Args[0].(*ssa.Alloc)
+								isCopy := false
+								if isAl {
+									for _, st := range storesInto(al) {
+										if cc, ok := st.Val.(*ssa.Call); ok && st.Addr == ssa.Value(al) && staticCallee(cc) == r.CopyCtx {
+											isCopy = true
+										}
+									}
+								}
+								if !isCopy || inPlaceCtx[al] {
+									indep = false // the caller's own context, or a copy another operand was evaluated in
+								}
+								if isAl {
+									inPlaceCtx[al] = true
+								}
+								switch k {
+								case 0:
+									ph.LeftResult = i
+									nEvaluator++
+									continue
+								case 1:
+									ph.RightResult = i
+									nEvaluator++
+									continue
+								}
+							}
+						}
+					}
+				}
 				ld, ok := ret.Results[i].(*ssa.UnOp)
 				if !ok {
 					ph.err = "result is not read from an evaluation context"
@@ -160,6 +204,19 @@ func (w *World) pairHelperOf(fn *ssa.Function) *pairHelper {
 				}
 				al, _ := fa.X.(*ssa.Alloc)
 				e, ok := byAlloc[al]
+				if !ok && fa.X == ssa.Value(fn.Params[0]) {
+					// the operand was evaluated in the helper's own context (not a copy: `indep` is already false)
+					n := 0
+					for _, ev := range evals {
+						if ev.OwnCtx {
+							e, ok = ev, true
+							n++
+						}
+					}
+					if n != 1 {
+						ok = false
+					}
+				}
 				if !ok {
 					ph.err = "returned context was not evaluated"
 					return
@@ -345,4 +402,39 @@ func sides(v, left, right ssa.Value) (fromL, fromR bool) {
 	}
 	backSlice(v, visit)
 	return
+}
+
+// inPlaceEvaluator: e evaluates the child designated by one of its parameters in the context it receives as its first
+// parameter (no copy) and returns that context's result. Returns the index of the designating parameter.
+func (w *World) inPlaceEvaluator(e *ssa.Function, r *Roles) (int, bool) {
+	evals := w.childEvals(e)
+	if len(evals) != 1 || !evals[0].OwnCtx {
+		return 0, false
+	}
+	nx, ok := evals[0].Call.Call.Args[1].(*ssa.Call)
+	if !ok || len(nx.Call.Args) != 2 {
+		return 0, false
+	}
+	idx := -1
+	for i, p := range e.Params {
+		if nx.Call.Args[1] == ssa.Value(p) {
+			idx = i
+		}
+	}
+	if idx < 0 {
+		return 0, false
+	}
+	returnsOwn := false
+	allInstrs(e, func(in ssa.Instruction) {
+		ret, ok := in.(*ssa.Return)
+		if !ok || len(ret.Results) != 2 || !isNilConst(ret.Results[1]) {
+			return
+		}
+		if ld, ok := ret.Results[0].(*ssa.UnOp); ok {
+			if fa, ok := ld.X.(*ssa.FieldAddr); ok && fa.Field == r.CtxResultField && fa.X == ssa.Value(e.Params[0]) {
+				returnsOwn = true
+			}
+		}
+	})
+	return idx, returnsOwn
 }
